@@ -93,3 +93,32 @@ Theorem rw_failed_lock_as_if_not_called_refuted : exists lsA lsB sA sB oA,
   st sB = 3 /\ q sB = [] /\ holds sB 2%nat = true /\ holds sB 3%nat = true.
 Proof. exact rw_failed_lock_as_if_not_called_refuted_thm. Qed.
 Print Assumptions rw_failed_lock_as_if_not_called_refuted.
+
+(* ================================================================================================
+   qrwlock (thread/thread.h 614-721), fine-grained: one step per atomic operation on lock_state and
+   on the spinlock; `qreach` = every interleaving of lock / try_lock / unlock calls of any number
+   of threads on any number of vCPUs, with timeouts and interrupts at any point.
+   ================================================================================================ *)
+Theorem qrw_excl : forall s, qreach s ->
+  (forall w, In (w, WR) (qholders s) -> qholders s = [(w, WR)] /\ ls s = -1) /\
+  ((forall h, In h (qholders s) -> snd h = RD) -> ls s = Z.of_nat (length (qholders s))) /\
+  (ls s = -1 \/ ls s = Z.of_nat (length (qholders s))) /\ -1 <= ls s.
+Proof. exact qrw_excl_thm. Qed.
+Print Assumptions qrw_excl.
+
+Theorem qrw_failed_noop : forall s l s', qstep s l = Some s' -> qlock_label s l = true ->
+  (exists t, l = QTh t /\ qholders s' = (t, qmd (qthr s t)) :: qholders s /\
+             (qp (qthr s' t) = QRel 0 0 \/ qth_step s t = Some (s', ORet 0 0)))
+  \/ qframe (qactor l) s s'.
+Proof. exact qlock_step_frame. Qed.
+Print Assumptions qrw_failed_noop.
+
+(* enabledness form: lock_state = 0, no unlock() between its decrement/store and the end of
+   try_wake(), no notified waiter that has not re-tried yet  =>  nobody waits on either cv *)
+Theorem qrw_no_lost_wake : forall s, qreach s -> ls s = 0 -> ~ qwaker s -> ~ qretrier s -> qu s = [] /\ qs s = [].
+Proof. exact qrw_no_lost_wake_thm. Qed.
+Print Assumptions qrw_no_lost_wake.
+
+Theorem qrw_no_stuck : forall s, qreach s -> ls s = 0 -> qquiescent s -> qu s = [] /\ qs s = [].
+Proof. exact qrw_no_stuck_thm. Qed.
+Print Assumptions qrw_no_stuck.
